@@ -28,8 +28,7 @@ Definition env_of (c: pcase) : env :=
 
 Definition kind_code (k: kind) : nat :=
   match k with KList => 0 | KSet => 1 | KFrozenSet => 2 | KDeque => 3 | KTuple => 4
-             | KDict => 5 | KOrderedDict => 6 | KDefaultDict => 7 | KCounter => 8 end.
-Definition kind_eqb (a b: kind) : bool := Nat.eqb (kind_code a) (kind_code b).
+             | KDict => 5 | KOrderedDict => 6 | KDefaultDict => 7 | KCounter => 8 | KChainMap => 9 end.
 
 (* fresh labels are collapsed to n0 *)
 Fixpoint norm (v: lv) : lv :=
